@@ -116,7 +116,7 @@ Proof.
   - destruct (cs_invoke _ _ _ _ _ _ _ _ _ CS) as (tmpv & d & _ & _ & _ & CD).
     destruct (Nat.leb (List.length (txtors d)) 1).
     + subst code. destruct tmpv; cbn [a_jump]; [apply (ends_nz_last [])|apply (ends_nz_last [_])]; cbn; lia.
-    + destruct CD as (k & _ & ->). destruct tmpv; cbn [a_add_and_jump]; [apply (ends_nz_last [_])|apply (ends_nz_last [_; _])]; cbn; lia.
+    + destruct CD as (k & _ & ->). destruct tmpv; cbn [a_add_and_jump]; [apply ends_nz_last|apply ends_nz_app, ends_nz_last]; cbn; lia.
   - destruct (cs_literal _ _ _ _ _ _ _ _ CS) as (tv & c2 & _ & NX & ->). apply ends_nz_app. eauto.
   - destruct (cs_op _ _ _ _ _ _ _ _ _ _ CS) as (tv & ta & tb & c2 & _ & _ & _ & NX & ->). apply ends_nz_app. eauto.
   - destruct (cs_print _ _ _ _ _ _ _ _ CS) as (tv & c2 & _ & NX & ->). apply ends_nz_app. eauto.
@@ -455,12 +455,12 @@ Proof.
   assert (T2' : atpos Snd (List.length c0) = Ok t2) by (rewrite <- L0; exact T2).
   destruct (atpos_ok _ _ _ T2') as (((Lt2 & Nt2 & Nt22) & _) & NFt2 & _).
   assert (R1 : forall s', frame_ok s' sp -> rget s' FREE = rget s FREE ->
-             (forall l, loc_ok l -> l <> AR TEMP -> l <> t2 -> lget s' sp l = lget s sp l) ->
+             (forall l, loc_ok l -> l <> AR TEMP -> l <> AR TEMP2 -> l <> t2 -> lget s' sp l = lget s sp l) ->
              rel (cl_ctx cl) (e1 ++ []) s' sp).
   { intros s' F' FR' KEEP. rewrite app_nil_r.
     assert (R0 : rel c0 e0 s' sp).
     { apply (rel_keep clo_ok c0 e0 s s' sp (rel_prefix c0 b e0 _ s sp R) F' FR'). intros j bj n tj Hj AL Tj.
-      destruct (atpos_ok _ _ _ Tj) as (((A & B & _) & _) & _). apply KEEP; auto.
+      destruct (atpos_ok _ _ _ Tj) as (((A & B & B2) & _) & _). apply KEEP; auto.
       intros E; subst tj. assert (Lj : (j < List.length c0)%nat) by (apply nth_error_Some; congruence).
       destruct (tpos_inj a64_backend a64_backend_ok _ _ _ _ _ Tj T2') as [_ E]. lia. }
     eapply (bind_rel clo_ok c0 e0 s' sp); eauto.
@@ -491,39 +491,52 @@ Proof.
       * eapply exec_next; [exact C0|rewrite (step_LDR_slot im s sp F) by exact Lt2; rewrite V2; reflexivity|].
         eapply exec_jump; [exact CJ|apply GO; rewrite TEMP_is; apply rget_rset_same; exact I|apply exec_refl].
       * apply R1; [apply frame_ok_rset; [rewrite TEMP_is; discriminate|exact F]|apply rget_rset_other; congruence|].
-        intros l Ll Nl _. apply (lget_lset_other s sp (AR TEMP) l); [apply F|rewrite TEMP_is; exact I|exact Ll|congruence].
+        intros l Ll Nl _ _. apply (lget_lset_other s sp (AR TEMP) l); [apply F|rewrite TEMP_is; exact I|exact Ll|congruence].
       * apply frame_eq_rset.
   - (* several destructors: add the table offset, then branch *)
     destruct CODE as (k' & XP' & ->). assert (k' = N.of_nat k) by (rewrite XP in XP'; inversion XP'; lia). subst k'.
     set (off := jump_length (N.of_nat k)) in *.
     assert (OFF : 0 <= off) by (unfold off, jump_length; lia).
     assert (W : wrap (a + off) = a + off) by (apply wrap_small_range; lia).
+    assert (IV : add_imm_fits off = false -> in64 off) by (intros _; unfold in64, two63; lia).
+    assert (KEEPX : forall sb s1 rn, gp (X rn) -> spv s1 = spv sb -> stack s1 = stack sb ->
+              (forall m, m <> rn -> m <> 3%N -> xget s1 m = xget sb m) ->
+              forall l, loc_ok l -> l <> AR (X rn) -> l <> AR TEMP2 -> lget s1 sp l = lget sb sp l).
+    { intros sb s1 rn _ Hsp Hst KP l Ll N1 N2. destruct l as [[m| |]|ql]; cbn [loc_ok gp] in Ll; try tauto; cbn [lget rget].
+      - apply KP; [congruence|]. intros ->. apply N2. rewrite TEMP2_is. reflexivity.
+      - unfold sget. rewrite Hst. reflexivity. }
     destruct t2 as [r|q]; cbn [a_add_and_jump lget loc_ok] in *.
-    + apply code_at_cons in CA as [C0 CA]. apply code_at_cons in CA as [CJ _].
-      set (s1 := rset s r (Some (a + off))).
-      assert (ST : step im (ADDI r r off) s = Next s1).
-      { rewrite (step_ADDI_reg im s r r a off V2), W. reflexivity. }
+    + destruct r as [rn| |]; cbn [gp] in Lt2; try tauto.
+      apply code_at_app in CA as [CA0 CJ]. apply code_at_cons in CJ as [CJ _].
+      assert (N3 : rn <> 3%N) by (intros ->; apply Nt22; rewrite TEMP2_is; reflexivity).
+      destruct (a64_add_offset_ok im s rn off a Lt2 N3 V2 IV) as (s1 & RS & V1' & KP & Hsp & Hh & Hst & Ho).
+      rewrite W in V1'.
+      assert (F1 : frame_ok s1 sp) by (split; [rewrite Hsp; apply F|apply F]).
       apply (FIN s1).
-      * eapply exec_next; [exact C0|exact ST|].
-        eapply exec_jump; [exact CJ|apply GO; unfold s1; apply rget_rset_same; exact Lt2|apply exec_refl].
-      * apply R1; [unfold s1; apply frame_ok_rset; [apply gp_not_sp; exact Lt2|exact F]|unfold s1; apply rget_rset_other; congruence|].
-        intros l Ll Nl N2. unfold s1. apply (lget_lset_other s sp (AR r) l); [apply F|exact Lt2|exact Ll|congruence].
-      * unfold s1. apply frame_eq_rset.
-    + apply code_at_cons in CA as [C0 CA]. apply code_at_cons in CA as [C1 CA]. apply code_at_cons in CA as [CJ _].
-      set (s0 := rset s TEMP (Some a)). set (s1 := rset s0 TEMP (Some (a + off))).
-      assert (ST : step im (ADDI TEMP TEMP off) s0 = Next s1).
-      { rewrite (step_ADDI_reg im s0 TEMP TEMP a off), W; [reflexivity|]. unfold s0. rewrite TEMP_is. apply rget_rset_same. exact I. }
+      * eapply exec_to_trans; [apply (run_straight_exec_to im _ pc s s1 CA0 RS)|].
+        eapply exec_jump; [exact CJ|apply GO; exact V1'|apply exec_refl].
+      * apply R1; [exact F1| |].
+        -- change FREE with (X 1). cbn [rget]. apply KP; [|discriminate]. intros <-. apply NFt2. reflexivity.
+        -- intros l Ll Nl N2' N3'. apply (KEEPX s s1 rn Lt2 Hsp Hst KP l Ll N3' N2').
+      * split; [exact Hh|split; [exact Ho|intros kk _; rewrite Hst; reflexivity]].
+    + apply code_at_cons in CA as [C0 CA]. apply code_at_app in CA as [CA0 CJ]. apply code_at_cons in CJ as [CJ _].
+      set (s0 := rset s TEMP (Some a)).
+      assert (F0 : frame_ok s0 sp) by (unfold s0; rewrite TEMP_is; apply frame_ok_rset; [discriminate|exact F]).
+      assert (V0 : xget s0 2 = Some a) by (unfold s0; rewrite TEMP_is; cbn [rset]; apply xget_xset_same).
+      rewrite TEMP_is in CA0.
+      destruct (a64_add_offset_ok im s0 2 off a I ltac:(discriminate) V0 IV) as (s1 & RS & V1' & KP & Hsp & Hh & Hst & Ho).
+      rewrite W in V1'.
+      assert (F1 : frame_ok s1 sp) by (split; [rewrite Hsp; apply F0|apply F]).
       apply (FIN s1).
       * eapply exec_next; [exact C0|rewrite (step_LDR_slot im s sp F) by exact Lt2; rewrite V2; reflexivity|].
-        eapply exec_next; [exact C1|exact ST|].
-        eapply exec_jump; [exact CJ|apply GO; unfold s1; rewrite TEMP_is; apply rget_rset_same; exact I|apply exec_refl].
-      * apply R1.
-        -- unfold s1, s0. rewrite TEMP_is. apply frame_ok_rset; [discriminate|]. apply frame_ok_rset; [discriminate|exact F].
-        -- unfold s1, s0. rewrite !rget_rset_other by congruence. reflexivity.
-        -- intros l Ll Nl _. unfold s1, s0.
-           change (rset (rset s TEMP (Some a)) TEMP (Some (a + off))) with (lset (lset s sp (AR TEMP) (Some a)) sp (AR TEMP) (Some (a + off))).
-           rewrite !lget_lset_other; [reflexivity|apply F|rewrite TEMP_is; exact I|exact Ll|congruence|apply F|rewrite TEMP_is; exact I|exact Ll|congruence].
-      * unfold s1, s0. eapply frame_eq_trans; apply frame_eq_rset.
+        eapply exec_to_trans; [apply (run_straight_exec_to im _ _ s0 s1 CA0 RS)|].
+        eapply exec_jump; [exact CJ|apply GO; rewrite TEMP_is; exact V1'|apply exec_refl].
+      * apply R1; [exact F1| |].
+        -- change FREE with (X 1). cbn [rget]. rewrite (KP 1%N) by discriminate. unfold s0. rewrite TEMP_is. cbn [rset]. apply xget_xset_other. discriminate.
+        -- intros l Ll Nl N2' _. rewrite TEMP_is in Nl.
+           rewrite (KEEPX s0 s1 2%N I Hsp Hst KP l Ll Nl N2'). unfold s0.
+           apply (lget_lset_other s sp (AR TEMP) l); [apply F|rewrite TEMP_is; exact I|exact Ll|rewrite TEMP_is; congruence].
+      * split; [rewrite Hh; reflexivity|split; [rewrite Ho; reflexivity|intros kk _; rewrite Hst; reflexivity]].
 Qed.
 
 (* progress at Invoke: under the relation a linearly well-typed invoke finds its closure, its clause and
